@@ -10,6 +10,7 @@ import (
 	"math/rand"
 	"os"
 	"path/filepath"
+	"time"
 
 	"github.com/Trisia/randomness"
 	"github.com/Trisia/randomness/detect"
@@ -276,6 +277,24 @@ func registryCmd(job []byte, out *Out) error {
 				a12 = append(a12, fromResult(t))
 			}
 			ev["round15"], ev["round12"] = a15, a12
+			// the registry and the full round after the reduced round has run: nothing may have moved
+			stable := len(randomness.TestMethodArr) >= 15
+			for i, it := range randomness.TestMethodArr {
+				if i < 15 && !same(fromResult(it.Runner(data)), runners[i]) {
+					stable = false
+				}
+			}
+			r15b := detect.Round15(data)
+			if len(r15b) != len(r15) {
+				stable = false
+			}
+			for i := range r15b {
+				if i < len(r15) && (r15b[i].Name != r15[i].Name || !same(fromResult(r15b[i]), fromResult(r15[i]))) {
+					stable = false
+				}
+			}
+			ev["stable"] = stable
+			ev["reglen"] = len(randomness.TestMethodArr)
 			defs := make([]R, 15)
 			nb := []R{}
 			for i := 1; i <= 15; i++ {
@@ -333,7 +352,10 @@ func registryCmd(job []byte, out *Out) error {
 				ev[k] = -1
 			}
 		}
-		for _, k := range []string{"mutated", "readgroup"} {
+		if _, ok := ev["reglen"]; !ok {
+			ev["reglen"] = -1
+		}
+		for _, k := range []string{"mutated", "readgroup", "stable"} {
 			if _, ok := ev[k]; !ok {
 				ev[k] = false
 			}
@@ -390,6 +412,7 @@ func resultsCmd(job []byte, out *Out) error {
 			Mode string `json:"mode"`
 			N    int    `json:"n"`
 			Seed int64  `json:"seed"`
+			Only string `json:"only"` // run this test only (bit-oriented entry point; for inputs at the upper size limit)
 		} `json:"inputs"`
 	}
 	if err := json.Unmarshal(job, &j); err != nil {
@@ -443,6 +466,9 @@ func resultsCmd(job []byte, out *Out) error {
 		bits := genBits(in.Mode, in.N, in.Seed)
 		snap := append([]bool(nil), bits...)
 		for i := 1; i <= 15; i++ {
+			if in.Only != "" && testIDs[i-1] != in.Only {
+				continue
+			}
 			for _, pr := range documented[i] {
 				if in.N < minLen(i, pr) {
 					continue
@@ -475,7 +501,7 @@ func resultsCmd(job []byte, out *Out) error {
 		if in.N%8 == 0 {
 			data := bitsToBytes(bits)
 			for i, it := range randomness.TestMethodArr {
-				if i >= 15 || in.N < minLen(i+1, defaults[i]) {
+				if i >= 15 || in.N < minLen(i+1, defaults[i]) || (in.Only != "" && testIDs[i] != in.Only) {
 					continue
 				}
 				ev := R{"ev": "res", "id": in.ID, "t": testIDs[i], "param": defaults[i], "n": in.N, "mode": in.Mode, "seed": in.Seed, "panic": "", "isrunner": true, "mutated": false}
@@ -497,7 +523,58 @@ func resultsCmd(job []byte, out *Out) error {
 	return nil
 }
 
+// job: {"n":..,"mode":..,"seed":..,"t":"dft","waitMs":3000}: starts the test on an input at the upper end of its range and
+// watches it for waitMs: a refusal (panic) within that time is recorded; if the call is still computing it is abandoned
+// (the thorough tier lets it finish). One "probe" event.
+func probeCmd(job []byte, out *Out) error {
+	var j struct {
+		N      int    `json:"n"`
+		Mode   string `json:"mode"`
+		Seed   int64  `json:"seed"`
+		T      string `json:"t"`
+		WaitMs int    `json:"waitMs"`
+	}
+	if err := json.Unmarshal(job, &j); err != nil {
+		return err
+	}
+	i := idxOf(j.T)
+	if i == 0 {
+		return fmt.Errorf("unknown test %q", j.T)
+	}
+	bits := genBits(j.Mode, j.N, j.Seed)
+	ev := R{"ev": "probe", "t": j.T, "n": j.N, "mode": j.Mode, "seed": j.Seed, "panic": "", "finished": false, "r": rr(0, 0, 0, 0), "id": 0}
+	type outc struct {
+		r R
+		p string
+	}
+	ch := make(chan outc, 1)
+	go func() {
+		var o outc
+		defer func() {
+			if p := recover(); p != nil {
+				o.p = fmt.Sprint(p)
+			}
+			ch <- o
+		}()
+		o.r = protoAt(i, defaults[i-1], bits)
+	}()
+	select {
+	case o := <-ch:
+		ev["panic"] = o.p
+		if o.p == "" {
+			ev["finished"] = true
+			ev["r"] = o.r
+		}
+	case <-time.After(time.Duration(j.WaitMs) * time.Millisecond):
+	}
+	out.Emit(ev)
+	out.Flush()
+	os.Exit(0) // the abandoned call may still be running
+	return nil
+}
+
 func init() {
+	register("probe", probeCmd)
 	register("tooltable", toolTableCmd)
 	register("bytetable", byteTableCmd)
 }
@@ -527,9 +604,16 @@ func byteTableCmd(job []byte, out *Out) error {
 	// a caller owns the slice it gets back: append to it and write into it, then expand everything again
 	for b := 0; b < 256; b++ {
 		r := randomness.B2bit(byte(b))
+		for i := range r {
+			r[i] = !r[i] // in place first (a slice with len = cap would be moved by append)
+		}
 		r = append(r, true, false, true)
 		for i := range r {
 			r[i] = !r[i]
+		}
+		r2 := randomness.B2bitArr([]byte{byte(b), byte(255 - b)})
+		for i := range r2 {
+			r2[i] = true
 		}
 	}
 	rows2 := make([][]int, 256)
